@@ -33,9 +33,9 @@ def replace(f, target, by):
 
 
 @st.composite
-def decomposed(draw, kind, tier='quick', max_subs=3):
+def decomposed(draw, kind, tier='quick', max_subs=3, profile=None):
     """A formula, a list of hoisted sub-terms (inner first) and the way they are delivered."""
-    p = profile_for(kind)
+    p = profile or profile_for(kind)
     if tier == 'thorough':
         p = p.copy(max_depth=p.max_depth + 1)
     f, vs = draw(F.formulas(p))
@@ -233,8 +233,13 @@ def build_modular(case, inline=False):
     pr = printer_for(kind)
     used = [v for v in case['vars'] if v in F.fvars(f)]
     base_kind = {'dt_off': 'dt_off', 'dt_on': 'dt_on', 'dt_on_past': 'dt_on', 'ct_off': 'ct_off', 'ct_on': 'ct_on'}[kind]
+    # interface-aware semantics and io declarations of the variables (C06 lane modular); the combined classes carry them
+    ia = {}
+    if case.get('sem'):
+        ia = dict(semantics=case['sem'], io_types={v: t for v, t in (case.get('io') or {}).items() if t and v in used})
+        base_kind = base_kind[:2]
     if inline:
-        return build(base_kind, 'out = ' + pr(f), used, pastify=(kind == 'dt_on_past'))
+        return build(base_kind, 'out = ' + pr(f), used, pastify=(kind == 'dt_on_past'), **ia)
     pr = printer_for(kind, case.get('bound_const'))
     bodies, main, const_decl = modular_texts(case, pr)
     const_decl = list(const_decl) + bound_const_decl(case)
@@ -268,8 +273,8 @@ def build_modular(case, inline=False):
             # one text in which the names are defined twice: the later definition is the one in force
             text2 = ' '.join('%s = %s;' % (n, t) for n, t in pbodies) + ' ' + text
             return build(base_kind, text2, declared + [v for v in pused if v not in declared], consts=const_decl,
-                         pastify=(kind == 'dt_on_past'))
-        spec = build(base_kind, ptext, declared + [v for v in pused if v not in declared], consts=const_decl)
+                         pastify=(kind == 'dt_on_past'), **ia)
+        spec = build(base_kind, ptext, declared + [v for v in pused if v not in declared], consts=const_decl, **ia)
         spec.spec = text
         spec.parse()
         if kind == 'dt_on_past':
@@ -280,7 +285,7 @@ def build_modular(case, inline=False):
         import os
         import tempfile
         from .runner import ROOT
-        spec = build(base_kind, text, declared, consts=const_decl, subspecs=subspecs, parse=False)
+        spec = build(base_kind, text, declared, consts=const_decl, subspecs=subspecs, parse=False, **ia)
         os.makedirs(os.path.join(ROOT, '.work'), exist_ok=True)
         fd, path = tempfile.mkstemp(prefix='spec-', suffix='.stl', dir=os.path.join(ROOT, '.work'))
         try:
@@ -293,7 +298,7 @@ def build_modular(case, inline=False):
         if kind == 'dt_on_past':
             spec.pastify()
         return spec
-    return build(base_kind, text, declared, consts=const_decl, subspecs=subspecs, pastify=(kind == 'dt_on_past'))
+    return build(base_kind, text, declared, consts=const_decl, subspecs=subspecs, pastify=(kind == 'dt_on_past'), **ia)
 
 
 def feed(case, spec, collect=None):
